@@ -429,6 +429,23 @@ def _put_one_NOT_IMPLEMENTED_YET_14(
 # ......................................................................................................................
 # misc put
 
+def _fix_joined_alnums_prim(self: fst.FST, src: str, ln: int, col: int) -> None:
+    """Call after the single line source `src` of a primitive (constant or identifier) has been put at `ln`, `col`. If
+    it starts or ends with an alphanumeric and that now touches an alphanumeric which was there before (a keyword or a
+    name which needed no space next to the quote, dot or star of whatever was replaced) then separate them with a space,
+    e.g. `'a'if''else 1` put `None` to the test -> `'a'ifNoneelse 1`. The put of an expression node does the same in
+    `_make_exprlike_fst()`."""
+
+    lines = self.root._lines
+    end_col = col + len(src)
+
+    if re_alnum.match(src, len(src) - 1) and re_alnum.match(lines[ln], end_col):  # we do this first because a space at the start changes the end location
+        self._put_src([' '], ln, end_col, ln, end_col, False)
+
+    if col and re_alnum.match(src) and re_alnum.match(lines[ln], col - 1):
+        self._put_src([' '], ln, col, ln, col, False)
+
+
 def _put_one_constant(
     self: fst.FST,
     code: _PutOneCode,
@@ -458,7 +475,11 @@ def _put_one_constant(
     if (value < 0 if isinstance(value, (int, float)) else value.imag < 0 if isinstance(value, complex) else False):
         raise NodeError('Constant.value cannot be negative')
 
-    self._put_src(repr(value), *self.loc, True)
+    ln, col, _, _ = self.loc
+    src = repr(value)
+
+    self._put_src(src, *self.loc, True)
+    _fix_joined_alnums_prim(self, src, ln, col)
 
     ast = self.a
     ast.value = value
@@ -2004,7 +2025,10 @@ def _put_one_identifier_required(
     ident = static.code_as(code, options, self.root._parse_params)  # this will be an identifier code_as_()
     info = static.getinfo(self, static, idx, field)
 
-    self._put_src(ident, *info.loc_prim, True)
+    ln, col, _, _ = loc_prim = info.loc_prim
+
+    self._put_src(ident, *loc_prim, True)
+    _fix_joined_alnums_prim(self, ident, ln, col)  # 'from m import*' -> 'from m import a'
     set_field(self.a, ident, field, idx)
 
     if isinstance(code, fst.FST):  # don't need to, but lets be consistent
@@ -2044,16 +2068,22 @@ def _put_one_identifier_optional(
     ident = static.code_as(code, options, self.root._parse_params)  # this will be an identifier code_as_()
 
     if child is not None:  # replace existing identifier
-        self._put_src(ident, *info.loc_prim, True)
+        ln, col, _, _ = loc_prim = info.loc_prim
+
+        self._put_src(ident, *loc_prim, True)
+        _fix_joined_alnums_prim(self, ident, ln, col)
         set_field(self.a, ident, field, idx)
 
     else: # put new identifier
         if not loc:
             raise ValueError(f'cannot create {self.a.__class__.__name__}.{field} in this state')
 
-        params_offset = self._put_src(info.prefix + ident + info.suffix, *loc, True, exclude=self)
+        ln, col, _, _ = loc
+        src = info.prefix + ident + info.suffix
+        params_offset = self._put_src(src, *loc, True, exclude=self)
 
         self._offset(*params_offset, self_=False)
+        _fix_joined_alnums_prim(self, src, ln, col)  # 'from .import a' -> 'from .m import a'
         set_field(self.a, ident, field, idx)
 
     if isinstance(code, fst.FST):  # don't need to, but lets be consistent
